@@ -93,7 +93,7 @@ register(Assumed(RP + "next_token", raises=[Raises("Exception")], modifies=_CTX_
                  effects=["trace.append(('tok', self, context, token))"]))
 register(Assumed(RP + "next_line", raises=[Raises("Exception")], modifies=_CTX_MODS, why=_RULE_WHY,
                  ensures=["implies(not context.in_fix_mode, context.current_fix_line is old(context.current_fix_line))"],
-                 effects=["trace.append(('line', self, context, context.line_number, line))"]))
+                 effects=["trace.append(('line', self, context, context.line_number, line))", "g_cfl.append(context.current_fix_line)"]))
 register(Assumed(RP + "completed_file", raises=[Raises("Exception")], modifies=_CTX_MODS, why=_RULE_WHY,
                  ensures=["implies(not context.in_fix_mode, context.current_fix_line is old(context.current_fix_line))"],
                  effects=["trace.append(('done', self, context, context.line_number))"]))
